@@ -506,7 +506,8 @@ func ledgerGen(r *Rng, tier string, emit func(string)) {
 	for h := 0; h < nHist; h++ {
 		g := &genCtx{r: r, emit: emit, sweepKind: badKinds[gi%len(badKinds)], sweepShared: gi%2 == 0, sweepSharedPos: gi / 2 % 9}
 		if (profile == "c05" && h%3 == 1) || (profile != "c05" && h%12 == 7) {
-			tieHistory(g)
+			// every other one (every fourth under c05) with blocks of 33-47 transactions
+			tieHistory(g, (profile == "c05" && (h/3)%4 == 3) || (profile != "c05" && (h/12)%2 == 1))
 			continue
 		}
 		if profile != "c05" && h%8 == 3 {
@@ -601,13 +602,18 @@ func genHistory(g *genCtx, profile string) {
 
 // tieHistory (C05): pools of 13-19 pending transactions on 1-3 fee levels and of equal size, so that the
 // fee-per-kB priorities tie and only the hash tie-break orders them (and decides an equal-fee double spend);
-// block-size limits that cut the sorted list at various points.  Two rounds.
-func tieHistory(g *genCtx) {
+// block-size limits that cut the sorted list at various points.  Two rounds.  `big`: 33-47 pending transactions and
+// a block-size limit that admits them all, so that the publisher's block (and copies of it whose trailing
+// transactions were replaced by other valid ones under the same header and signature) has a large body.
+func tieHistory(g *genCtx, big bool) {
 	r := g.r
 	g.prec, g.burn = 1, 2
 	g.avoidPending = true
 	gc := []uint64{3e6, 25e6, 1e9}[r.Intn(3)]
 	maxblk := []uint64{1024, 2048, 3072, 32768}[r.Intn(4)]
+	if big {
+		gc, maxblk = 1e9, 32768
+	}
 	g.emit("reset arbF=0 gc=" + u(gc) + " gt=1000 burn=2 maxtxn=1024 maxblk=" + u(maxblk) + " prec=6 ubf=2 umax=1024 uprec=6")
 	if world == nil {
 		return
@@ -620,6 +626,9 @@ func tieHistory(g *genCtx) {
 	gen := uxs[0]
 	gh, err := gen.CoinHours(headTime)
 	n := 13 + r.Intn(7)
+	if big {
+		n = 33 + r.Intn(15)
+	}
 	levels := uint64(1 + r.Intn(3))
 	if err != nil || gh < uint64(20*n) || gen.Body.Coins < uint64(n*(n+2)) {
 		return
@@ -671,6 +680,19 @@ func tieHistory(g *genCtx) {
 		g.emit("mkblock " + u(g.nextWhenSmall()))
 		if sb := lastMade; sb != nil {
 			lastMade = nil
+			if big {
+				// the same signed header over a body in which one transaction near the end (or anywhere) was replaced
+				// by another valid spend of the same output: must be refused wherever the replacement sits
+				nt := len(sb.Body.Transactions)
+				for _, pos := range []int{nt - 1, nt - 2, nt - 3, r.Intn(nt)} {
+					if pos < 0 {
+						continue
+					}
+					if fb, ok := substituteBodyAt(*sb, pos); ok {
+						g.emit("exec F " + encodeBlock(&fb))
+					}
+				}
+			}
 			g.execBoth(sb)
 		}
 	}
